@@ -120,6 +120,9 @@ POOL_ctx* POOL_create_advanced(size_t numThreads, size_t queueSize,
     POOL_ctx* ctx;
     /* Check parameters */
     if (!numThreads) { return NULL; }
+    /* the sizes below are computed in size_t : refuse the values that would make them wrap */
+    if (numThreads > ((size_t)-1) / sizeof(ZSTD_pthread_t)) { return NULL; }
+    if (queueSize >= ((size_t)-1) / sizeof(POOL_job)) { return NULL; }   /* also covers queueSize + 1 */
     /* Allocate the context and zero initialize */
     ctx = (POOL_ctx*)ZSTD_customCalloc(sizeof(POOL_ctx), customMem);
     if (!ctx) { return NULL; }
@@ -222,6 +225,7 @@ static int POOL_resize_internal(POOL_ctx* ctx, size_t numThreads)
         return 0;
     }
     /* numThreads > threadCapacity */
+    if (numThreads > ((size_t)-1) / sizeof(ZSTD_pthread_t)) return 1;   /* the size below would wrap */
     {   ZSTD_pthread_t* const threadPool = (ZSTD_pthread_t*)ZSTD_customCalloc(numThreads * sizeof(ZSTD_pthread_t), ctx->customMem);
         if (!threadPool) return 1;
         /* replace existing thread pool */
